@@ -660,6 +660,16 @@ fn handle_next(
                 .next()
                 .cloned();
 
+            // The nesting partners must be ordered bottom below top. If they are not, the input
+            // overlaps itself (and the range query below would be ill-formed).
+            if let (Some(bot_bot), Some(top_top)) = (&bot_bot, &top_top) {
+                if Rc::ptr_eq(bot_bot, top_top)
+                    || bot_bot.partial_cmp(top_top) != Some(Ordering::Less)
+                {
+                    return Err(TriangulationError::Overlap(ptype, p));
+                }
+            }
+
             // Ensure nesting partners have no edges between them.
             if y_struct
                 .active_edges
